@@ -249,7 +249,8 @@ struct HistGen {
             } else {
                 int which = *irange(0, 3);
                 if (which == 0) {      // ragged size
-                    int n = *irange(1, 5 * bs);
+                    // ragged byte counts, below and above the vector batch (64 / 128 bytes)
+                    int n = *rc::gen::weightedOneOf<int>({{2, irange(1, 5 * bs)}, {3, irange(1, 24 * bs)}, {1, rc::gen::element(63, 65, 127, 129, 257)}});
                     if (n % bs == 0) n += 1 + *irange(0, bs - 2);
                     const char *fn = s.kind == PM ? "crypt" : (*chance(50) ? "enc" : "dec");
                     Op e = base(i, fn, true);
